@@ -861,8 +861,8 @@ class SigmaRegularExpression(SigmaType):
                 else:
                     yield replacement
 
-        return [
-            SigmaRegularExpression(str(sigmastr), self.flags)
+        return [  # pass the SigmaString itself to keep not yet handled placeholders
+            SigmaRegularExpression(sigmastr, set(self.flags))
             for sigmastr in self.regexp.replace_placeholders(regex_callback)
         ]
 
